@@ -32,6 +32,8 @@ type Engine struct {
 	specs  map[string]*SpecFunc // "pkg\x00name" and "\x00name"
 	axioms []*Axiom
 	allCon []*Contract
+	purePkgs map[string]bool // assumption A4: functions of these packages are pure functions of their arguments
+	immHeaps map[string]bool // heap components never written by /repo (fields of struct types of pure packages)
 
 	structIDs map[string]*structInfo
 	typeTags  map[string]int
@@ -54,7 +56,7 @@ type structInfo struct {
 func NewEngine(repo, verif string, patterns []string) (*Engine, error) {
 	e := &Engine{repo: repo, verif: verif, pkgs: map[string]*ssa.Package{}, ppkgs: map[string]*packages.Package{},
 		cons: map[*ssa.Function]*Contract{}, icons: map[string]*Contract{}, extcon: map[string]*Contract{},
-		specs: map[string]*SpecFunc{}, structIDs: map[string]*structInfo{}, typeTags: map[string]int{}, fieldIDs: map[string]int{}}
+		specs: map[string]*SpecFunc{}, purePkgs: map[string]bool{}, immHeaps: map[string]bool{}, structIDs: map[string]*structInfo{}, typeTags: map[string]int{}, fieldIDs: map[string]int{}}
 	e.fset = token.NewFileSet()
 	cfg := &packages.Config{Mode: packages.LoadAllSyntax, Dir: repo, BuildFlags: []string{"-tags=verif"}, Fset: e.fset,
 		Env: append(os.Environ(), "GOFLAGS=-mod=mod", "GOPROXY=off", "GOSUMDB=off", "GOTOOLCHAIN=local")}
@@ -133,6 +135,9 @@ func (e *Engine) LoadContracts() error {
 			e.specs[key] = s
 		}
 		e.axioms = append(e.axioms, sf.Axioms...)
+		for _, pp := range sf.PurePkgs {
+			e.purePkgs[pp] = true
+		}
 		for _, c := range sf.Contracts {
 			if err := e.bindContract(c); err != nil {
 				return err
@@ -310,6 +315,11 @@ func (e *Engine) structOf(t types.Type) *structInfo {
 		sorts = append(sorts, SInt)
 	}
 	declareDatatype(si.sort, si.ctor, si.sels, sorts)
+	if n, ok := t.(*types.Named); ok && n.Obj().Pkg() != nil && e.purePkgs[n.Obj().Pkg().Path()] {
+		for i := 0; i < st.NumFields(); i++ {
+			e.immHeaps[fieldHeapName(si, i)] = true
+		}
+	}
 	return si
 }
 
